@@ -215,36 +215,52 @@ func VerifC11_Reuse() {
 	s := &Service{chainTime: vstub.NewChainTime(0), fallbackFeeRecipient: c12Fallback, fallbackGasLimit: 30000000,
 		validatorRegistrationSigner: signer, executionConfig: cfg,
 		latestValidatorRegistrations: map[phase0.BLSPubKey]phase0.Root{}, signedValidatorRegistrations: map[phase0.Root]*apiv1.SignedValidatorRegistration{}}
-	st := [3]c11Setting{}
-	for round := 0; round < 3; round++ {
+	// four rounds; in each the settings are what they are (changed, changed back, unchanged) and
+	// the signing request may fail. The reference: a registration is reused exactly when its
+	// content is that of the registration sent last for the validator; otherwise it is signed
+	// afresh (the old object carries an old timestamp), and if that fails nothing is sent for the
+	// validator this round and nothing about the failed attempt is remembered.
+	const rounds = 4
+	st := [rounds]c11Setting{}
+	var last c11Setting // content of the registration sent last
+	haveLast := false
+	sent := 0
+	for round := 0; round < rounds; round++ {
 		st[round] = c11Setting{fee: bellatrix.ExecutionAddress(vnd.Addr("fee")), gas: vnd.U64("gas")}
 		cfg.settings[1][relay.name] = st[round]
+		signer.failFor[1] = vnd.Bool("sign.fails")
 		before := signer.calls
 		_ = s.submitValidatorRegistrationsForAccounts(context.Background(), accounts)
 		vnd.Quiesce()
-		// content that differs from the previous round's is signed afresh, even
-		// when it equals what some earlier round signed (settings changed and
-		// changed back): the old object carries the old timestamp
-		if round > 0 {
-			changed := st[round] != st[round-1]
-			if changed {
-				vnd.Assert(signer.calls == before+1, "C11.reuse.changed-content-is-signed-afresh")
-			} else {
-				vnd.Assert(signer.calls == before, "C11.reuse.unchanged-content-is-not-signed-again")
-			}
-			if changed && st[round] == st[0] && round == 2 {
+		reuse := haveLast && st[round] == last
+		if reuse {
+			vnd.Cover("C11.reuse.unchanged")
+			vnd.Assert(signer.calls == before, "C11.reuse.unchanged-content-is-not-signed-again")
+		} else {
+			vnd.Assert(signer.calls == before+1, "C11.reuse.changed-content-is-signed-afresh")
+			if haveLast && round >= 2 && (st[round] == st[0] || st[round] == st[1]) {
 				vnd.Cover("C11.reuse.changed-and-changed-back")
 			}
 		}
-		vnd.Assert(len(relay.calls) == round+1 && len(relay.calls[round]) == 1, "C11.reuse.each-round-registers")
-		reg := relay.calls[round][0].V1
+		if !reuse && signer.failFor[1] {
+			vnd.Cover("C11.reuse.signing-failed")
+			got := 0
+			for _, batch := range relay.calls[sent:] {
+				got += len(batch)
+			}
+			vnd.Assert(got == 0, "C11.reuse.nothing-sent-for-a-validator-whose-signing-failed")
+			sent = len(relay.calls)
+			continue
+		}
+		vnd.Assert(len(relay.calls) == sent+1 && len(relay.calls[sent]) == 1, "C11.reuse.each-round-registers")
+		if len(relay.calls) != sent+1 || len(relay.calls[sent]) != 1 {
+			return
+		}
+		reg := relay.calls[sent][0].V1
+		sent = len(relay.calls)
 		vnd.Assert(reg.Message.FeeRecipient == st[round].fee && reg.Message.GasLimit == st[round].gas, "C11.reuse.content-is-current-settings")
 		vnd.Assert(reg.Signature == c11Sig(1, reg.Message), "C11.reuse.signature-matches-content-never-a-stale-one")
-	}
-	same01 := st[0] == st[1]
-	if same01 {
-		vnd.Cover("C11.reuse.unchanged")
-		vnd.Assert(signer.calls <= 2, "C11.reuse.unchanged-content-reuses-the-signature")
+		last, haveLast = st[round], true
 	}
 	_ = builderspec.BuilderVersionV1
 }
